@@ -10,7 +10,7 @@ from .rules_locks import cg, bounded_join
 from .locks import lock_sites
 from .callgraph import BLOCKING
 
-S = 'desync::scheduler::desync_scheduler::Scheduler::'
+S = 'desync::Scheduler::'
 SJD = S + 'schedule_job_desync'
 POLL_ENUM = 'core::task::poll::Poll'
 RESULT = 'core::result::Result'
@@ -105,7 +105,7 @@ def c07_signal(ctx):
             continue
         out.append(ok('ORD-C07-signal', key, 'signal() once, after every await completed, on every path, and nothing follows it', loc=f.loc(sbb), fn=f.name))
     # signal consumes self
-    sg = ctx.F.fn('desync::scheduler::scheduler_future::SchedulerFutureSignaller::signal')
+    sg = ctx.F.fn('desync::SchedulerFutureSignaller::signal')
     if sg:
         inp = sg.j.get('inputs', [])
         if inp and not clean_ty(inp[0]).startswith('&'):
@@ -122,7 +122,7 @@ def c07_syncwait(ctx):
     (a sync job on the future's own queue) before reading it."""
     out = []
     R = 'ORD-C07-syncwait'
-    fn = _fn(ctx, 'desync::scheduler::scheduler_future::SchedulerFuture::sync', R, out)
+    fn = _fn(ctx, 'desync::SchedulerFuture::sync', R, out)
     if not fn:
         return out
     key = 'SchedulerFuture::sync|wait-on-queue'
@@ -150,7 +150,7 @@ def c07_own(ctx):
     """The job is owned by the queue, not by the returned future: SchedulerFuture has no field that can hold a job and its Drop does nothing to the queue."""
     F = ctx.F
     out = []
-    adt = F.adts.get('desync::scheduler::scheduler_future::SchedulerFuture')
+    adt = F.adts.get('desync::SchedulerFuture')
     if not adt:
         return [undecided('ORD-C07-own', 'anchor', 'SchedulerFuture not found')]
     badf = [f['name'] for f in adt['variants'][0]['fields'] if any(x in clean_ty(f['ty']) for x in ('ScheduledJob', 'FutureJob', 'future_job', 'Job<', 'UnsafeJob', 'oneshot::Sender'))]
@@ -158,7 +158,7 @@ def c07_own(ctx):
         out.append(bad('ORD-C07-own', 'fields', 'SchedulerFuture field(s) %s can hold the operation itself: dropping the future would drop the operation' % badf))
     else:
         out.append(ok('ORD-C07-own', 'fields', 'no field of SchedulerFuture can hold a job (%s)' % ', '.join('%s: %s' % (f['name'], ty_head(f['ty']).split('::')[-1]) for f in adt['variants'][0]['fields'])))
-    d = F.fn('<desync::scheduler::scheduler_future::SchedulerFuture as core::ops::drop::Drop>::drop')
+    d = F.fn('<desync::SchedulerFuture as core::ops::drop::Drop>::drop')
     if d:
         n = sum(1 for _ in d.calls())
         if n:
@@ -249,7 +249,7 @@ def c08(ctx):
             else:
                 out.append(ok(R, key, 'send(queue-ready) -> await(task-finished) -> signal, and a cancelled await still signals', fn=f.name))
     # (d) SyncFuture::poll
-    p = _fn(ctx, '<desync::scheduler::sync_future::SyncFuture as core::future::future::Future>::poll', R, out)
+    p = _fn(ctx, '<desync::SyncFuture as core::future::future::Future>::poll', R, out)
     if p:
         g = cg(ctx)
         user_calls = [s for s in g.sites.get(p.name, []) if s.kind == 'param']
@@ -292,7 +292,7 @@ def c08(ctx):
         if len(upolls) != 1 or not arms:
             out.append(undecided(R, key, 'expected one poll of the user future and a match on the SyncFuture state'))
         else:
-            wf = ctx.F.adts['desync::scheduler::sync_future::SyncFutureState']
+            wf = ctx.F.adts['desync::SyncFutureState']
             dv = [v['discr'] for v in wf['variants'] if v['name'] == 'WaitingForFuture']
             tgt = arms.get(str(dv[0])) if dv else None
             if tgt is not None and edom(p, tgt, upolls[0].bb):
@@ -301,7 +301,7 @@ def c08(ctx):
                 out.append(bad(R, key, 'the user future is polled outside the WaitingForFuture arm', fn=p.name))
         # task_finished is sent only after the user future completed, or on the cancel edge of the scheduler future
         takes = []
-        u = FieldUse(p, 'desync::scheduler::sync_future::SyncFuture')
+        u = FieldUse(p, 'desync::SyncFuture')
         for (bb, m, t) in u.calls.get('task_finished', []):
             if m == 'take':
                 takes.append(bb)
@@ -343,13 +343,13 @@ def c08(ctx):
         else:
             out.append(bad(R, key, 'the result is returned before the slot job has finished', fn=p.name))
     # (e) drop order
-    adt = F.adts.get('desync::scheduler::sync_future::SyncFuture')
+    adt = F.adts.get('desync::SyncFuture')
     key = 'SyncFuture|drop-order'
     if not adt:
         out.append(undecided(R, key, 'SyncFuture not found'))
     else:
         names = [f['name'] for f in adt['variants'][0]['fields']]
-        has_drop = bool(F.impls_of('core::ops::drop::Drop', 'desync::scheduler::sync_future::SyncFuture'))
+        has_drop = bool(F.impls_of('core::ops::drop::Drop', 'desync::SyncFuture'))
         if 'state' in names and 'task_finished' in names and names.index('state') < names.index('task_finished') and not has_drop:
             out.append(ok(R, key, 'fields drop in declaration order: the user future (state) before the completion sender (task_finished); no Drop impl interferes'))
         else:
@@ -383,7 +383,7 @@ def c13(ctx):
     sender_ok = False
     for b in j.blocks:
         for s in b['stmts']:
-            if s['k'] == 'assign' and s['rv']['k'] == 'agg' and s['rv'].get('adt') == 'desync::scheduler::queue_resumer::QueueResumer':
+            if s['k'] == 'assign' and s['rv']['k'] == 'agg' and s['rv'].get('adt') == 'desync::QueueResumer':
                 e = j.expr_of_operand(s['rv']['ops'][0])
                 if render(e).endswith('.0') and expr_root(e)[0] == 'call' and 'channel' in expr_root(e)[1]:
                     sender_ok = True
@@ -398,8 +398,8 @@ def c13(ctx):
         out.append(ok(R, 'suspend|as-job', 'suspension is an ordinary future_desync job (every token rule applies to it)', fn=sp.name))
     else:
         out.append(bad(R, 'suspend|as-job', 'suspend no longer schedules its wait as a queue job', fn=sp.name))
-    has_drop = bool(F.impls_of('core::ops::drop::Drop', 'desync::scheduler::queue_resumer::QueueResumer'))
-    rs = F.fn('desync::scheduler::queue_resumer::QueueResumer::resume')
+    has_drop = bool(F.impls_of('core::ops::drop::Drop', 'desync::QueueResumer'))
+    rs = F.fn('desync::QueueResumer::resume')
     if not has_drop and rs and not clean_ty(rs.j['inputs'][0]).startswith('&'):
         out.append(ok(R, 'QueueResumer|consume', 'resume(self) consumes the resumer; dropping it drops the sender, which also resumes'))
     else:
@@ -408,7 +408,7 @@ def c13(ctx):
 
 
 # ---------------------------------------------------------------------------------------------
-SCHEDULE_DORMANT = 'desync::scheduler::core::SchedulerCore::schedule_dormant'
+SCHEDULE_DORMANT = 'desync::SchedulerCore::schedule_dormant'
 
 
 def _deref_bool_writes(ctx, fn, cls):
@@ -681,7 +681,7 @@ def c10_spawn(ctx):
     """A ready queue goes to a dormant thread or to a newly spawned one below the maximum, then scheduling is retried."""
     out = []
     R = 'ORD-C10-spawn'
-    st = _fn(ctx, 'desync::scheduler::core::SchedulerCore::schedule_thread', R, out)
+    st = _fn(ctx, 'desync::SchedulerCore::schedule_thread', R, out)
     if not st:
         return out
     d = calls(st, 'SchedulerCore::schedule_dormant')
@@ -780,8 +780,8 @@ def c17(ctx):
     # thread creation in one place
     spawns = [(fn, bb) for fn in F.crate_fns() for bb, t in calls(fn, 'std::thread::builder::Builder::spawn') + calls(fn, 'std::thread::functions::spawn')]
     key = 'thread-creation'
-    if len(spawns) == 1 and spawns[0][0].name == 'desync::scheduler::scheduler_thread::SchedulerThread::new':
-        callers = sorted(set(f for f, ss in g.sites.items() for s in ss if 'desync::scheduler::scheduler_thread::SchedulerThread::new' in s.targets))
+    if len(spawns) == 1 and spawns[0][0].name == 'desync::SchedulerThread::new':
+        callers = sorted(set(f for f, ss in g.sites.items() for s in ss if 'desync::SchedulerThread::new' in s.targets))
         push_fns = sorted(set(fn.name for fn, _, _ in pushes))
         if set(callers) <= set(push_fns):
             out.append(ok(R, key, 'OS threads are created only by SchedulerThread::new, called only from %s' % ', '.join(short(c) for c in callers)))
@@ -842,7 +842,7 @@ def c10_fetch(ctx):
     schedule.pop_front(), and otherwise keeps looking."""
     out = []
     R = 'ORD-C10-fetch'
-    fn = _fn(ctx, 'desync::scheduler::core::SchedulerCore::next_to_run', R, out)
+    fn = _fn(ctx, 'desync::SchedulerCore::next_to_run', R, out)
     if not fn:
         return out
     pops = [(bb, t) for bb, t in calls(fn, 'VecDeque::pop_front') if 'JobQueue' in clean_ty(t['args'][0]['pl']['ty'])]
@@ -875,17 +875,17 @@ def c10_fetch(ctx):
     return out
 
 
-DESYNC_ARC = 'alloc::sync::Arc<desync::desync::Desync<'
+DESYNC_ARC = 'alloc::sync::Arc<desync::Desync<'
 
 
 def c05_drop(ctx):
     """Desync::drop queues a final synchronous job on its own queue on every path, and that job is where the value is freed."""
     out = []
     R = 'ORD-C05-drop'
-    fn = _fn(ctx, '<desync::desync::Desync as core::ops::drop::Drop>::drop', R, out)
+    fn = _fn(ctx, '<desync::Desync as core::ops::drop::Drop>::drop', R, out)
     if not fn:
         return out
-    syncs = [bb for bb, t in fn.calls() if (t['func'].get('fn') or '') in ('desync::scheduler::desync_scheduler::sync', S + 'sync', S + 'sync_no_panic')]
+    syncs = [bb for bb, t in fn.calls() if (t['func'].get('fn') or '') in ('desync::sync', S + 'sync', S + 'sync_no_panic')]
     key = 'Desync::drop|sync-on-every-path'
     if syncs and all_paths_pass(fn, 0, syncs):
         out.append(ok(R, key, 'every path through drop performs a sync on the queue (after everything scheduled before)', fn=fn.name))
@@ -919,18 +919,18 @@ def c05_weak(ctx):
     F = ctx.F
     out = []
     R = 'ORD-C05-weak'
-    adt = F.adts.get('desync::pipe::PipeContext')
+    adt = F.adts.get('desync::PipeContext')
     if not adt:
         return [undecided(R, 'anchor', 'PipeContext not found')]
     tf = [f for f in adt['variants'][0]['fields'] if f['name'] == 'target']
-    if tf and clean_ty(tf[0]['ty']).startswith('alloc::sync::Weak<desync::desync::Desync<'):
+    if tf and clean_ty(tf[0]['ty']).startswith('alloc::sync::Weak<desync::Desync<'):
         out.append(ok(R, 'PipeContext.target', 'the pipe context refers to its target through Weak<Desync<_>>'))
     else:
         out.append(bad(R, 'PipeContext.target', 'PipeContext.target is %s: the pipe would keep the Desync alive' % (tf[0]['ty'] if tf else 'missing')))
     strong = [f['name'] for f in adt['variants'][0]['fields'] if DESYNC_ARC in clean_ty(f['ty'])]
     if strong:
         out.append(bad(R, 'PipeContext|strong', 'PipeContext field(s) %s hold a strong reference to the Desync' % strong))
-    pp = F.fn('desync::pipe::PipeContext::poll')
+    pp = F.fn('desync::PipeContext::poll')
     if not pp:
         out.append(undecided(R, 'PipeContext::poll', 'anchor not found'))
         return out
@@ -956,10 +956,10 @@ def c05_weak(ctx):
         else:
             out.append(bad(R, key, 'when the target is gone the poll function (stream + closure) is not released', fn=pp.name))
     # no closure handed to the target's queue captures a strong reference to the Desync
-    for root in ('desync::pipe::pipe_in', 'desync::pipe::PipeContext::poll'):
+    for root in ('desync::pipe_in', 'desync::PipeContext::poll'):
         for k in _children(ctx, root):
             for u in k.upvars:
-                if DESYNC_ARC in clean_ty(u['ty']) or clean_ty(u['ty']).startswith('desync::desync::Desync<'):
+                if DESYNC_ARC in clean_ty(u['ty']) or clean_ty(u['ty']).startswith('desync::Desync<'):
                     out.append(bad(R, '%s|upvar:%s' % (short(k.name), u['name']), 'closure captures a strong reference to the Desync (%s): the pipe keeps its target alive' % u['ty'], fn=k.name))
     if not any(i.verdict != 'ok' and 'upvar' in i.key for i in out):
         out.append(ok(R, 'closures|no-strong-capture', 'no closure of pipe_in / PipeContext::poll captures Arc<Desync<_>>'))
@@ -974,7 +974,7 @@ def c11(ctx):
     R = 'ORD-C11'
     g = cg(ctx)
     # (a) the poll function only runs inside a future_desync job of the target
-    pp = F.fn('desync::pipe::PipeContext::poll')
+    pp = F.fn('desync::PipeContext::poll')
     if not pp:
         return [undecided(R, 'anchor', 'PipeContext::poll not found')]
     pollfn_calls = []
@@ -1013,7 +1013,7 @@ def c11(ctx):
     else:
         out.append(bad(R, key, 'a finished pipe keeps its poll function (input stream and closure are never released)', fn=pp.name))
     # (b) pipe_in's coroutine
-    pin = [k for k in _children(ctx, 'desync::pipe::pipe_in') if k.is_coroutine]
+    pin = [k for k in _children(ctx, 'desync::pipe_in') if k.is_coroutine]
     key = 'pipe_in|loop'
     if len(pin) != 1:
         out.append(undecided(R, key, 'pipe_in coroutine not found'))
@@ -1091,11 +1091,11 @@ def c12(ctx):
     out = []
     R = 'ORD-C12'
     g = cg(ctx)
-    pk = [k for k in _children(ctx, 'desync::pipe::pipe') if k.is_coroutine]
+    pk = [k for k in _children(ctx, 'desync::pipe') if k.is_coroutine]
     if len(pk) != 1:
         return [undecided(R, 'anchor', 'pipe coroutine not found')]
     k = pk[0]
-    u = FieldUse(k, 'desync::pipe::PipeStreamCore')
+    u = FieldUse(k, 'desync::PipeStreamCore')
     polls = [s for s in g.sites.get(k.name, []) if s.kind == 'poll' and 'poll_next' in (s.t['func'].get('fn') or '')]
     procs = [s for s in g.sites.get(k.name, []) if s.kind == 'param']
     aw = await_sites(k)
@@ -1136,12 +1136,12 @@ def c12(ctx):
     else:
         out.append(bad(R, key, 'the producer marks the stream closed %s' % ('%d times' % len(cl) if len(cl) != 1 else 'on an edge other than end-of-input'), fn=k.name))
     # consumer
-    pn = F.fn('<desync::pipe::PipeStream as futures_core::stream::Stream>::poll_next')
+    pn = F.fn('<desync::PipeStream as futures_core::stream::Stream>::poll_next')
     key = 'poll_next|end-only-when-empty-and-closed'
     if not pn:
         out.append(undecided(R, key, 'anchor not found'))
     else:
-        u2 = FieldUse(pn, 'desync::pipe::PipeStreamCore')
+        u2 = FieldUse(pn, 'desync::PipeStreamCore')
         pops = [(bb, t) for (bb, m, t) in u2.calls.get('pending', []) if m == 'pop_front']
         if len(pops) != 1:
             out.append(bad(R, key, 'expected one pop_front in poll_next', fn=pn.name))
@@ -1181,7 +1181,7 @@ def c16(ctx):
     F = ctx.F
     out = []
     R = 'ORD-C16'
-    pk = [k for k in _children(ctx, 'desync::pipe::pipe') if k.is_coroutine]
+    pk = [k for k in _children(ctx, 'desync::pipe') if k.is_coroutine]
     if len(pk) != 1:
         return [undecided(R, 'anchor', 'pipe coroutine not found')]
     k = pk[0]
@@ -1195,11 +1195,11 @@ def c16(ctx):
         out.append(bad(R, key, 'the producer no longer upgrades a weak reference to the stream core on each poll', fn=parent.name if parent else ''))
     # strong Arc<Desync> only in the on_drop closure
     holders = []
-    for c in _children(ctx, 'desync::pipe::pipe'):
+    for c in _children(ctx, 'desync::pipe'):
         for u in c.upvars:
             if DESYNC_ARC in clean_ty(u['ty']):
                 holders.append((c, u['name']))
-    ps_new = calls(F.fn('desync::pipe::pipe'), 'PipeStream::new') if F.fn('desync::pipe::pipe') else []
+    ps_new = calls(F.fn('desync::pipe'), 'PipeStream::new') if F.fn('desync::pipe') else []
     on_drop = None
     if ps_new:
         for a in ps_new[0][1]['args']:
@@ -1211,14 +1211,14 @@ def c16(ctx):
     else:
         out.append(bad(R, key, 'a strong reference to the Desync is held by %s (expected only the on_drop closure)' % ', '.join('%s.%s' % (short(c.name), n) for c, n in holders)))
     # stream core must not be held strongly by producer closures
-    for c in _children(ctx, 'desync::pipe::pipe'):
+    for c in _children(ctx, 'desync::pipe'):
         if c.name == on_drop:
             continue
         for u in c.upvars:
-            if clean_ty(u['ty']).startswith('alloc::sync::Arc<std::sync::poison::mutex::Mutex<desync::pipe::PipeStreamCore<') and not c.is_coroutine and c.parent == 'desync::pipe::pipe':
+            if clean_ty(u['ty']).startswith('alloc::sync::Arc<std::sync::poison::mutex::Mutex<desync::PipeStreamCore<') and not c.is_coroutine and c.parent == 'desync::pipe':
                 out.append(bad(R, 'pipe|core-strong', 'the producer closure holds a strong reference to the stream core: dropping the output stream would not be noticed', fn=c.name))
     # closed => return false
-    u = FieldUse(k, 'desync::pipe::PipeStreamCore')
+    u = FieldUse(k, 'desync::PipeStreamCore')
     key = 'pipe|stop-on-closed'
     reads = u.reads.get('closed', [])
     if len(reads) >= 2:
@@ -1226,9 +1226,9 @@ def c16(ctx):
     else:
         out.append(bad(R, key, 'the producer consults `closed` only %d time(s)' % len(reads), fn=k.name))
     # drop marks the core closed, under its lock
-    dr0 = F.fn('<desync::pipe::PipeStream as core::ops::drop::Drop>::drop')
+    dr0 = F.fn('<desync::PipeStream as core::ops::drop::Drop>::drop')
     if dr0:
-        u0 = FieldUse(dr0, 'desync::pipe::PipeStreamCore')
+        u0 = FieldUse(dr0, 'desync::PipeStreamCore')
         sets = [(bb, i) for (bb, i, v) in u0.assigns.get('closed', []) if v[0] == 'const' and str(v[1]) == '1']
         H0 = ctx.held(dr0)
         if sets and all('PipeStream.core' in H0.held_before(bb, i) for bb, i in sets) and all_paths_pass(dr0, 0, [bb for bb, _ in sets]):
@@ -1264,7 +1264,7 @@ def c16(ctx):
     else:
         out.append(bad(R, key, 'the producer sees the core closed but keeps the pipe alive (does not return false)', fn=k.name))
     # on_drop runs on the disposal queue
-    dr = F.fn('<desync::pipe::PipeStream as core::ops::drop::Drop>::drop')
+    dr = F.fn('<desync::PipeStream as core::ops::drop::Drop>::drop')
     key = 'PipeStream::drop|on_drop-on-chute'
     if not dr:
         out.append(undecided(R, key, 'anchor not found'))
@@ -1295,8 +1295,8 @@ def c15_unwind(ctx):
     F = ctx.F
     out = []
     R = 'ORD-C15-unwind'
-    roots = ('desync::scheduler::scheduler_thread::SchedulerThread::new', 'desync::scheduler::scheduler_thread::wrap_fnonce',
-             'desync::scheduler::scheduler_thread::SchedulerThread::run', SCHEDULE_DORMANT, 'desync::scheduler::core::SchedulerCore::schedule_thread')
+    roots = ('desync::SchedulerThread::new', 'desync::wrap_fnonce',
+             'desync::SchedulerThread::run', SCHEDULE_DORMANT, 'desync::SchedulerCore::schedule_thread')
     n = 0
     hits = []
     for f in F.crate_fns():
@@ -1317,7 +1317,7 @@ def c15_unwind(ctx):
 
 
 # ---------------------------------------------------------------------------------------------
-DWS = 'desync::scheduler::scheduler_future::DrainWakerState'
+DWS = 'desync::DrainWakerState'
 
 
 def _enum_swap_table(fn, enum_path):
@@ -1371,7 +1371,7 @@ def c06_drain(ctx):
     out = []
     R = 'ORD-C06-drain'
     g = cg(ctx)
-    dq = _fn(ctx, 'desync::scheduler::scheduler_future::SchedulerFuture::drain_queue', R, out)
+    dq = _fn(ctx, 'desync::SchedulerFuture::drain_queue', R, out)
     if dq:
         ww = calls(dq, 'DrainWaker::wake_with')
         rq = calls(dq, 'JobQueue::requeue')
@@ -1400,8 +1400,8 @@ def c06_drain(ctx):
             else:
                 out.append(ok(R, key, 'on both suspended-job branches: requeue, then the parked state is written, then the real waker is installed', fn=dq.name))
     # DrainWaker decision tables
-    for name, need in (('desync::scheduler::scheduler_future::DrainWaker::wake_with', {'Woken': ('opt', 'Some'), 'NotWoken': ('write', 'WillWakeWithWaker'), 'WillWakeWithWaker': ('write', 'WillWakeWithWaker')}),
-                       ('<desync::scheduler::scheduler_future::DrainWaker as futures_task::arc_wake::ArcWake>::wake_by_ref', {'NotWoken': ('write', 'Woken'), 'WillWakeWithWaker': ('opt', 'Some'), 'Woken': ('write', 'Woken')})):
+    for name, need in (('desync::DrainWaker::wake_with', {'Woken': ('opt', 'Some'), 'NotWoken': ('write', 'WillWakeWithWaker'), 'WillWakeWithWaker': ('write', 'WillWakeWithWaker')}),
+                       ('<desync::DrainWaker as futures_task::arc_wake::ArcWake>::wake_by_ref', {'NotWoken': ('write', 'Woken'), 'WillWakeWithWaker': ('opt', 'Some'), 'Woken': ('write', 'Woken')})):
         fn = F.fn(name)
         key = 'DW-table|' + short(name).split('::')[-1]
         if not fn:
@@ -1427,7 +1427,7 @@ def c06_drain(ctx):
         else:
             out.append(ok(R, key, 'rows: ' + '; '.join('%s -> write %s, wake %s' % (v, sorted(w) or '-', sorted(o) or '-') for v, (w, o) in sorted(tab.items())), fn=name))
     # DoubleWaker wakes both
-    dw = F.fn('<desync::scheduler::scheduler_future::DoubleWaker as futures_task::arc_wake::ArcWake>::wake_by_ref')
+    dw = F.fn('<desync::DoubleWaker as futures_task::arc_wake::ArcWake>::wake_by_ref')
     key = 'DoubleWaker|wakes-both'
     if not dw:
         out.append(undecided(R, key, 'anchor not found'))
@@ -1444,7 +1444,7 @@ def c06_drain(ctx):
         else:
             out.append(bad(R, key, 'DoubleWaker no longer wakes both of its wakers (found %d wake sites)' % len(wakes), fn=dw.name))
     # thread-side: park in a loop that re-reads the state
-    rj = F.fn('desync::scheduler::job_queue::JobQueue::run_one_job_now')
+    rj = F.fn('desync::JobQueue::run_one_job_now')
     key = 'run_one_job_now|park-in-recheck-loop'
     if not rj:
         out.append(undecided(R, key, 'anchor not found'))
@@ -1513,7 +1513,7 @@ def c11_sleep(ctx):
     out = []
     R = 'ORD-C11-sleep'
     g = cg(ctx)
-    for root in ('desync::pipe::pipe_in', 'desync::pipe::pipe'):
+    for root in ('desync::pipe_in', 'desync::pipe'):
         ks = [k for k in _children(ctx, root) if k.is_coroutine]
         key = root.split('::')[-1] + '|sleep-only-when-registered'
         if len(ks) != 1:
@@ -1526,7 +1526,7 @@ def c11_sleep(ctx):
             continue
         e = result_edges(k, polls[0].bb)
         pending = edge_for(e, POLL_ENUM, 'Pending') if e else None
-        u = FieldUse(k, 'desync::pipe::PipeStreamCore')
+        u = FieldUse(k, 'desync::PipeStreamCore')
         parks = [bb for (bb, i, v) in u.assigns.get('backpressure_release_notify', []) if v[0] == 'agg' and v[2].endswith('Option::Some')]
         trues = []
         for bb, b in enumerate(k.blocks):
